@@ -215,13 +215,90 @@ theorem never_queues_unknown_or_unsupported (s0 : St) (evs : List Ev) :
       | errors ks => simp [step] at hk
     · exact ih _ r hr k hk
 
+/-! ### the record after a whole history -/
+
+/-- the statement's situation at every announcement of a history -/
+def NoForeignHist : St → List Ev → Prop
+  | _, [] => True
+  | s, .announce w :: es => NoForeign s w ∧ NoForeignHist (announce s w).st es
+  | s, .errors ks :: es => NoForeignHist { s with unsupported := ks } es
+
+/-- what the statement says the library has recorded for kind `k` after a history, read off the
+history alone: start from the record `r` and the unsupported set `u`; `frame_errors` replaces the
+set; an announcement that carries `k` (last occurrence on the wire: version `v`) while `k` is a
+request kind the device supports makes the record `v` -/
+def histRecord (k : Nat) : List Nat → Option Nat → List Ev → Option Nat
+  | _, r, [] => r
+  | _, r, .errors ks :: es => histRecord k ks r es
+  | u, r, .announce w :: es =>
+    histRecord k u
+      (match w.reverse.lookup k with
+       | some v => if creatable k && !u.contains k then some v else r
+       | none => r) es
+
+/-- **the recorded version after ANY announcement history** (announcements and `frame_errors`
+dispatches in any order, from any state) is the version of the last announcement that carried
+the kind while it was a supported request kind — by induction from `recorded_after` -/
+theorem recorded_history (s : St) (evs : List Ev) (h : NoForeignHist s evs) (k : Nat) :
+    recorded (final s evs) k = histRecord k s.unsupported (recorded s k) evs := by
+  induction evs generalizing s with
+  | nil => rfl
+  | cons e evs ih =>
+    cases e with
+    | errors ks =>
+      simp only [final, step, histRecord]
+      exact ih _ h
+    | announce w =>
+      simp only [final, step, histRecord]
+      rw [ih _ h.2, (announce_exact s w).2.2.1, recorded_after s w h.1 k]
+
+/-- … hence: when the last announcement carrying `k` finds it supported, its version is the record,
+whatever was announced before and whatever else is announced after -/
+theorem recorded_is_last_announced (s : St) (pre post : List Ev) (w : List Entry) (k v : Nat)
+    (h : NoForeignHist s (pre ++ .announce w :: post))
+    (hw : w.reverse.lookup k = some v) (hc : creatable k = true)
+    (hs : (final s pre).unsupported.contains k = false)
+    (hpost : ∀ e ∈ post, ∀ w', e = .announce w' → w'.reverse.lookup k = none) :
+    recorded (final s (pre ++ .announce w :: post)) k = some v := by
+  have hsplit : ∀ (s : St) (a b : List Ev), final s (a ++ b) = final (final s a) b := by
+    intro s a b; induction a generalizing s with
+    | nil => rfl
+    | cons e a ih => simp only [List.cons_append, final]; exact ih _
+  have hN : ∀ (s : St) (a b : List Ev), NoForeignHist s (a ++ b) → NoForeignHist (final s a) b := by
+    intro s a b; induction a generalizing s with
+    | nil => exact id
+    | cons e a ih =>
+      cases e with
+      | errors ks => intro h; exact ih _ h
+      | announce w => intro h; exact ih _ h.2
+  rw [hsplit]
+  have h2 := hN s pre _ h
+  simp only [final, step]
+  rw [recorded_history _ post h2.2 k, (announce_exact _ w).2.2.1, recorded_after _ w h2.1 k, hw, hc, hs]
+  simp only [Bool.not_false, Bool.and_self, if_true]
+  clear h2 h hs
+  generalize (final s pre).unsupported = u
+  induction post generalizing u with
+  | nil => rfl
+  | cons e post ih =>
+    cases e with
+    | errors ks =>
+      simp only [histRecord]
+      exact ih (fun e he => hpost e (List.mem_cons_of_mem _ he)) ks
+    | announce w' =>
+      simp only [histRecord, hpost _ (List.mem_cons_self ..) w' rfl]
+      exact ih (fun e he => hpost e (List.mem_cons_of_mem _ he)) u
+
+example : recorded (final init [.announce [(49, 1)], .errors [50], .announce [(49, 7), (50, 3)], .announce [(54, 2)]]) 49 = some 7 ∧
+    recorded (final init [.announce [(49, 1)], .errors [50], .announce [(49, 7), (50, 3)], .announce [(54, 2)]]) 50 = none := by
+  decide
+
 /-! ### the judge -/
 
 theorem expected_process (j : Judge) (s : St) (hs : j.seen = s.versions) (hu : j.unsupported = s.unsupported)
     (es : List Entry) :
     (expected j es).1 = (process s es).queued ∧ (expected j es).2.2 = !(process s es).raised ∧
-      ((expected j es).2.2 = true →
-        (expected j es).2.1.seen = (process s es).st.versions ∧
+      ((expected j es).2.1.seen = (process s es).st.versions ∧
         (expected j es).2.1.unsupported = (process s es).st.unsupported) := by
   induction es generalizing j s with
   | nil => simp [expected, process, hs, hu]
@@ -245,7 +322,7 @@ theorem expected_process (j : Judge) (s : St) (hs : j.seen = s.versions) (hu : j
             simp only [needs, hk, Bool.true_and]; exact hcond
           simp only [expected, hcond, hreq', isForeign, hk, if_true, Bool.false_eq_true, if_false,
             Bool.not_false, Bool.and_self, process, hn, hc]
-          simp
+          simp [hs, hu]
         · have hk' : known k = false := by simpa using hk
           have hn : needs s (k, v) = false := by simp [needs, hk']
           simp only [expected, hcond, hreq', isForeign, hk', if_true, Bool.false_and, Bool.false_eq_true,
@@ -273,13 +350,14 @@ theorem judge_run (j : Judge) (s : St) (hs : j.seen = s.versions) (hu : j.unsupp
       rcases hexp : expected j (dictOf w) with ⟨q, j', ok⟩
       rw [hexp] at h1 h2 h3
       simp only at h1 h2 h3
-      cases ok with
-      | true =>
-        simp only [announce, ← h1, beq_self_eq_true, Bool.true_and]
-        exact ih j' _ (h3 rfl).1 (h3 rfl).2
-      | false =>
-        simp only [announce, ← h1]
-        exact List.isPrefixOf_iff_prefix.2 (List.prefix_refl _)
+      simp only [announce, ← h1, beq_self_eq_true, Bool.true_and]
+      exact ih j' _ h3.1 h3.2
+
+/-- the judge keeps judging after a foreign entry: a history in which the announcement after one
+queues a request three times and the next one an unannounced kind is rejected (audit item 7) -/
+example : spec [.announce [(177, 1)], .announce [(49, 1)], .announce [(49, 1)]] [[], [49, 49, 49], [50]] = false := by decide
+
+example : spec [.announce [(177, 1)], .announce [(49, 1)], .announce [(49, 1)]] [[], [49], []] = true := by decide
 
 /-- **C15 holds**: every history of the model passes the judge applied to the implementation -/
 theorem holds (evs : List Ev) : spec evs ((run init evs).map (·.queued)) = true := by
@@ -328,13 +406,8 @@ theorem judge2_run (j : Judge) (s : St) (hs : j.seen = s.versions) (hu : j.unsup
         rcases hexp : expected j (dictOf w) with ⟨q, j', ok⟩
         rw [hexp] at h1 h2 h3
         simp only at h1 h2 h3
-        cases ok with
-        | true =>
-          simp only [announce, ← h1, beq_self_eq_true, Bool.true_and]
-          exact ih j' _ (h3 rfl).1 (h3 rfl).2
-        | false =>
-          simp only [announce, ← h1]
-          exact List.isPrefixOf_iff_prefix.2 (List.prefix_refl _)
+        simp only [announce, ← h1, beq_self_eq_true, Bool.true_and]
+        exact ih j' _ h3.1 h3.2
 
 /-- every history with failed `request()` calls passes the judge applied to the implementation -/
 theorem holds2 (evs : List Ev2) : spec2 evs ((run2 init evs).map (·.queued)) = true := by
